@@ -534,7 +534,7 @@ for _v, _n, _d in ((0, 11, 'SEQUENCE { a [0] OPTIONAL, b CHOICE OPTIONAL (untagg
           functions=['SEQUENCE_decode_ber', 'ber_check_tags', 'ber_fetch_tag', 'ber_fetch_length', 'ber_skip_length', '_t2e_cmp', 'SEQUENCE_free'],
           defines=['VF_V=%d' % _v, 'VF_N=%d' % _n, 'VF_SIZE=%d' % _sz], unwind=_n + 3, cbmc=['--unwindset', 'ber_skip_length:2', '--malloc-may-fail', '--malloc-fail-null', '--memory-leak-check'],
           bound=_d + '; every input of exactly %d octets in an exact-size heap buffer; every allocation may fail' % _sz, min_props=80, timeout=1800, **SQB)
-    O(id='SEQUENCE_decode_ber.chunk2.v%d' % _v, props=['C05', 'C03'], kind='bounded', tier='experimental', entry='h_SEQUENCE_decode_ber_chunked',
+    O(id='SEQUENCE_decode_ber.chunk2.v%d' % _v, props=['C05', 'C03'], kind='bounded', tier='experimental' if _v else 'thorough', entry='h_SEQUENCE_decode_ber_chunked',
       functions=['SEQUENCE_decode_ber', 'ber_check_tags', 'ber_fetch_tag', 'ber_fetch_length', 'ber_skip_length', '_t2e_cmp'],
       defines=['VF_V=%d' % _v, 'VF_N=%d' % _n], unwind=9, cbmc=['--unwindset', 'ber_skip_length:2,ber_fetch_tag.0:%d,ber_fetch_length.0:%d,h_SEQUENCE_decode_ber_chunked.0:%d,h_SEQUENCE_decode_ber_chunked.1:%d' % ((_n + 3,) * 4), '--no-malloc-may-fail'],
       bound=_d + '; every split point k of every input of at most %d octets (two chunks)' % _n, min_props=80, timeout=1800, **SQB)
